@@ -76,6 +76,14 @@ static Outcome runCase(const KV& c)
         // a different iteration count between thread counts is legitimate only through a borderline stop test
         o.cls("iteration_count_differs_between_thread_counts");
     }
+    else if (op == OP11_TRANSFERS && !bitwise) {
+        // interpolation, restriction and injection compute every output entry in one thread from read-only data: there is
+        // nothing to re-associate, so any difference between thread counts is more than re-association
+        char buf[200];
+        snprintf(buf, sizeof buf, "transfers: results with %d and %d threads are not bit-identical (max diff %.3e, scale %.3e)", t1, t2, dmax, scale);
+        o.fail("thread_count_dependence", buf);
+        return o;
+    }
     else if (dmax > rel * (scale + 1e-300)) {
         char buf[200];
         snprintf(buf, sizeof buf, "%s: results with %d and %d threads differ by %.3e (scale %.3e)", kOpNames11[op], t1, t2, dmax, scale);
